@@ -519,14 +519,21 @@ def check_auto(chk):
                         return "RESULT"
                     old = g["eig"]
                     g["eig"] = rec
+                    settings = dict(tol=1e-3, max_iters=77, pbar=False)      # the settings an Auto object documents
                     try:
-                        out = impl(A, k, which, Auto())
+                        out = impl(A, k, which, Auto(**settings))
                     except Exception as e:
-                        bad.append(f"SelfAdjoint={sa}, shape={shape}, k={k}, which={which}: raises {type(e).__name__}: {e}")
+                        bad.append(f"SelfAdjoint={sa}, shape={shape}, k={k}, which={which}, Auto({settings}): raises {type(e).__name__}: {e}")
                         continue
                     finally:
                         g["eig"] = old
                     nm = type(seen.get("alg")).__name__
+                    chosen = seen.get("alg")
+                    if hasattr(chosen, "tol") and chosen.tol != settings["tol"]:
+                        bad.append(f"SelfAdjoint={sa}, shape={shape}, k={k}, which={which} -> {nm}: the requested tolerance is not forwarded ({chosen.tol})")
+                    cap = getattr(chosen, "max_iters", getattr(chosen, "max_iter", None))
+                    if cap is not None and cap != settings["max_iters"]:
+                        bad.append(f"SelfAdjoint={sa}, shape={shape}, k={k}, which={which} -> {nm}: the requested iteration cap is not forwarded ({cap})")
                     case = f"SelfAdjoint={sa}, shape={shape}, k={k}, which={which} -> {nm}"
                     if seen.get("A") is not A or seen.get("k") != k or seen.get("which") != which or out != "RESULT":
                         bad.append(case + ": (A, k, which) not forwarded / result not returned")
